@@ -9,7 +9,7 @@ VERIF = os.path.dirname(os.path.dirname(os.path.abspath(__file__)))
 T = {
  "C01": ("fault_enumeration",
          "online reference-model monitor on the driver-call tap + exhaustive single-fault injection per driver-call position",
-         "Real PFCP server driven over UDP by simulated SMFs; every forwarder.Driver call is checked online against a reference rule-set model and the data-plane table is compared with the model at every quiescent point; each history is re-executed once per driver-call position x {fail-not-applied, fail-applied}. Decides the property on the histories and fault positions executed.",
+         "Real PFCP server driven over UDP by simulated SMFs; every forwarder.Driver call is checked against a reference rule-set model and the data-plane table is compared with the model at every quiescent point; each history is re-executed once per driver-call position x {fail-not-applied, fail-applied} (+ seeded multi-fault plans). Three data planes: model, model without final reports on URR removal, and the real gtp5g driver over the simulated kernel (rule table = the kernel's). Decides the property on the histories and fault positions executed.",
          "Reference model and model data plane are harness code; data-plane semantics (EEXIST/ENOENT, lost-ack) are assumptions listed in evidence."),
  "C02": ("exploration",
          "reference IE->netlink-attribute translator compared with requests captured at a simulated gtp5g kernel; permutation metamorphic check",
@@ -37,7 +37,7 @@ T = {
          "Crash signatures are bucketed by panic class + first go-upf frame; known findings listed in KNOWN_FINDINGS.txt."),
  "C08": ("exploration",
          "response-correlation monitor over the datagram log + snapshot diff for rejected/unanswered requests",
-         "Every response must come back to the request's source address with its sequence number and the peer's SEID (0 with cause 65 for unknown sessions); accepted Establishment Responses must carry node id and a UP F-SEID that addresses the session; error/unanswered requests must leave driver log and snapshot unchanged; one recovery time stamp per process.",
+         "Every response must come back to the request's source socket with its sequence number and the peer's SEID (0 with cause 65 for unknown sessions); accepted Establishment Responses must carry node id and a UP F-SEID that addresses the session; error/unanswered requests must leave driver log and snapshot unchanged; one recovery time stamp per server; histories include retransmissions, second sockets, take-over and re-association.",
          "As C04."),
  "C09": ("exploration",
          "TX-transaction model over recorded datagrams with injected timer expiries, bounded-exhaustive + random event orders",
@@ -45,11 +45,11 @@ T = {
          "Counter positioned through a build-tagged hook; expiry injected through the exported NotifyTransTimeout."),
  "C10": ("exploration",
          "conservation check with uniquely valued reports from a simulated kernel to the SMF sockets",
-         "Kernel-side reports (multicast REPORT, periodic, query/update/remove results) carry unique counters; every Usage Report IE at an SMF must map back to exactly one kernel report with all fields equal and measurement IEs selected by the URR's method/MNOP; reports for unknown sessions/URRs must be absent and the rest of the batch present.",
+         "Kernel-side reports (multicast REPORT, periodic, query/update/remove/dissociation results) carry unique counters; every Usage Report IE at an SMF must map back to exactly one kernel report with all fields equal and measurement IEs selected by the URR's current method/MNOP (partial Update URR included); reports for unknown sessions/URRs must be absent and the rest of the batch present; PFCP-level histories with take-over check that every report request reaches the current owner.",
          "Simulated kernel semantics are assumptions listed in evidence."),
  "C11": ("exploration",
-         "per-URR-incarnation counter model over datagrams in arrival order",
-         "UR-SEQN values per (session, URR incarnation) over all three carriers must be 0,1,2,... in arrival order at the owning SMF socket.",
+         "per-URR-incarnation counter model over datagrams in arrival order; porcupine linearizability check of concurrent histories",
+         "UR-SEQN values per (session, URR incarnation) over all three carriers must be 0,1,2,... in arrival order at the owning SMF socket (sequential histories on two data-plane variants); concurrent histories (query clients, notification and multicast producers on the full stack) are checked for linearizability against a per-URR fetch-and-increment model with porcupine.",
          "Loopback UDP preserves order between one sender and one receiver socket; drops are detected via /proc/net/udp."),
  "C12": ("exploration",
          "reference PDR<->URR association model (derived from current lists) compared with TERMR/IMMER reports per response",
@@ -57,11 +57,11 @@ T = {
          "Model data plane returns one report per query/removal of an existing URR and an error otherwise."),
  "C13": ("exploration",
          "per (session incarnation, PDR) FIFO model with unique payloads, observed at simulated gNB sockets",
-         "BUFFER multicasts with unique payloads, FAR apply-action transitions, PDR/session removal and SEID re-use against the real driver over the simulated kernel; released packets must be exactly the queued ones, once, in order, to the FAR's peer/TEID/QFI; none after drop or session end.",
+         "BUFFER multicasts with unique payloads, FAR apply-action transitions (incl. the first tunnel arriving with the switch to FORW and permuted IE order), PDR/session removal, SEID re-use and take-over against the real driver over the simulated kernel; released packets must be exactly the queued ones, once, in order, to the FAR's peer/TEID/QFI; none after drop or session end; downlink-data reports iff NOCP, to the current owner.",
          "Simulated kernel computes FAR/QER<->PDR relations like gtp5g; GTP-U decoded by the independent decoder of C14."),
  "C14": ("exploration",
          "independent GTP-U / PDU-session-container decoder over encoder output; exhaustive QFI x PDU type core",
-         "All QFI 0..63 x PDU type 0..15 x with/without container x boundary TEIDs x payload lengths decoded by an independent decoder written from TS 29.281 / TS 38.415; second path through Gtp5g.WritePacket to a UDP socket.",
+         "All QFI 0..63 x PDU type 0..15 x with/without container x boundary TEIDs x payload lengths (thorough: every length 0..1500) decoded by an independent decoder written from TS 29.281 / TS 38.415. The Gtp5g.WritePacket path is exercised by C13 with the same decoder.",
          "Decoder is harness code written from the specifications."),
  "C15": ("exploration",
          "registered-set model per period against the real perio server with injected ticks; ticker-goroutine census",
